@@ -331,8 +331,9 @@ Json EngineGen::generate(uint64_t seed, const runner::GenOptions& opt, const Eng
     } else if (db && rng.chance(400)) {
       // one call of the BuildDB interface fails during this build (the engine's own seam: a client may attach any BuildDB):
       // the engine cancels the build from inside, with completions possibly queued up - it must still come back
-      static const char* kinds[] = {"set_result", "set_result", "set_result", "lookup", "build_started", "set_iteration"};
-      op.set("db_fault", Json::obj().set("kind", kinds[rng.below(6)]).set("nth", (int64_t)rng.below(8)));
+      // ... or, one level down, one write / sync of the simulated disk under SQLite fails (EIO, or a full disk)
+      static const char* kinds[] = {"set_result", "set_result", "set_result", "set_result", "set_result", "lookup", "build_started", "set_iteration", "vfs_write", "vfs_write", "vfs_sync", "vfs_full"};
+      op.set("db_fault", Json::obj().set("kind", kinds[rng.below(12)]).set("nth", (int64_t)rng.below(8)));
     }
     hist.push(op);
     builds++;
@@ -1745,6 +1746,14 @@ void Run::opBuild(const Json& op) {
       dbFault.armed = true;
       dbFault.kind = df->gets("kind");
       dbFault.nth = (int)df->getn("nth");
+      if (dbFault.kind.compare(0, 4, "vfs_") == 0 && !killWindow) {
+        simvfs::set_hook([this](const simvfs::Call& c) -> int {
+          bool match = dbFault.kind == "vfs_sync" ? !strcmp(c.op, "sync") : !strcmp(c.op, "write");
+          if (!match || !dbFaultHit(dbFault.kind.c_str())) return 0;
+          ctr()["db_fault_" + dbFault.kind]++;
+          return dbFault.kind == "vfs_full" ? SQLITE_FULL : dbFault.kind == "vfs_sync" ? SQLITE_IOERR_FSYNC : SQLITE_IOERR_WRITE;
+        });
+      }
     }
   }
 
@@ -1787,6 +1796,7 @@ void Run::opBuild(const Json& op) {
     copy = engine->build(KeyType(targetKey));
   }
   inBuild = false;
+  if (dbFault.armed && dbFault.kind.compare(0, 4, "vfs_") == 0 && !killWindow) simvfs::set_hook(nullptr);
   dbFault.armed = false;
   intruder.reset();
   cancelAbort = true;
@@ -1810,6 +1820,22 @@ void Run::opBuild(const Json& op) {
     ctr()["builds_with_db_fault"]++;
     if (!errorReported) ctr()["db_fault_not_reported_as_error"]++;
     if (!copy.empty()) ctr()["db_fault_build_succeeded_anyway"]++;
+    if (dbFault.kind.compare(0, 4, "vfs_") == 0) {
+      // probe, not judged: after a disk error the next process can still open and read the file
+      dropEngine();
+      std::string err;
+      auto db = createSQLiteBuildDB(dbPath, clientVersion, /*recreate=*/false, &err);
+      ReadbackDelegate del;
+      bool ok = false;
+      std::vector<KeyType> keys;
+      std::vector<Result> results;
+      if (db) {
+        db->attachDelegate(&del);
+        db->getCurrentEpoch(&ok, &err);
+        if (ok) ok = db->getKeysWithResult(keys, results, &err);
+      }
+      ctr()[ok ? "probe_db_readable_after_disk_error" : "probe_db_UNREADABLE_after_disk_error"]++;
+    }
     ev(EV_BUILD_END, targetKey, "db-fault", 0);
     if (openTasks != 0) viol("C06.2", std::to_string(openTasks) + " task object(s) created by the build were not destroyed when it returned after a database failure");
     int stray = sim::live_with_role_prefix("queue");
